@@ -289,6 +289,25 @@ Section Proofs.
   Proof. intros ((_ & _ & Hfb) & _ & Hp). unfold get_left. rewrite <- Hfb. apply Hp. Qed.
   Lemma lookups_agree b k v : Bij b -> (get_right leqb b k = Some v <-> get_left reqb b v = Some k).
   Proof. intros (_ & _ & Hfb). apply Hfb. Qed.
+  (* re-linking a pair that is already live changes nothing: both views answer every lookup as before.  Keys and
+     values enter only through the equality, so this holds whichever of several equal objects the caller passes
+     (seeded C18-g decided "is it the pair just written" by object identity and dropped the pair) *)
+  Lemma reinsert_live_pair b k v : Bij b -> get_right leqb b k = Some v ->
+    forall k' v', (get_right leqb (insert_left b k v) k' = Some v' <-> get_right leqb b k' = Some v') /\
+                  (get_left reqb (insert_left b k v) v' = Some k' <-> get_left reqb b v' = Some k').
+  Proof.
+    intros HB Hkv k' v'.
+    assert (HB' : Bij (insert_left b k v)) by (apply insert_left_bij; exact HB).
+    assert (Hfwd : get_right leqb (insert_left b k v) k' = Some v' <-> get_right leqb b k' = Some v').
+    { unfold get_right in *. rewrite (ins_fwd_get b k v HB k' v'). split.
+      - intros [[Ek Ev]|(_ & _ & H)]; [subst; exact Hkv|exact H].
+      - intros H. destruct (leqb_spec k' k) as [Ek|Hne].
+        + left. subst k'. split; [reflexivity|congruence].
+        + right. split; [exact Hne|]. split; [|exact H]. intros Ev. subst v'.
+          destruct HB as (_ & _ & Hfb). apply Hfb in H. apply Hfb in Hkv. congruence. }
+    split; [exact Hfwd|].
+    rewrite <- (lookups_agree _ _ _ HB'), <- (lookups_agree _ _ _ HB). exact Hfwd.
+  Qed.
   Lemma rep_items b p : Rep b p -> forall kv, In kv (items b) <-> In kv p.
   Proof. intros ((Hf & _) & _ & Hp) [k v]. unfold items. rewrite <- Hp.
          symmetry. now apply (dget_In_iff leqb leqb_spec). Qed.
